@@ -231,6 +231,9 @@ def absent_tuples(rng, rows):
             out.append(t)
     if rng.random() < 0.3:
         out.append(list(rows[0]) + [['s', 'extra']])          # a key with more components than the depth names no label
+    if depth >= 2 and rng.random() < 0.4:
+        r = rng.choice(rows)
+        out.append(list(r[:rng.randint(1, depth - 1)]))          # ... and neither does a proper prefix of a label
     return out
 
 
